@@ -16,6 +16,26 @@ package simbox
 
 //@ pred sameRulesPrefix(r *Simbox, n int) := forall p int :: 0 <= p && p < n ==> r.Rules[p] == old(r.Rules[p])
 
+
+// ---- printing and parsing of rules are inverse (C15, first clause) ----------------------------------------------
+
+// The text Rule.String prints, case by case (the same concatenations as the code).
+//@ spec ruleText(x Rule) string := (x.Timec == 0 && x.Action == 0 ? cat(cat(cat(cat(cat("absolute:", itoa(wrapS64(x.Tick))), ":set:"), x.Object), ":"), x.Extra) : (x.Timec == 0 && x.Action == 1 ? cat(cat(cat(cat(cat("absolute:", itoa(wrapS64(x.Tick))), ":get:"), x.Object), ":"), x.Extra) : (x.Timec == 0 && x.Action == 2 ? cat(cat(cat(cat(cat("absolute:", itoa(wrapS64(x.Tick))), ":show:"), x.Object), ":"), x.Extra) : (x.Timec == 2 && x.Action == 0 ? cat(cat(cat(cat(cat("relative:", itoa(wrapS64(x.Tick))), ":set:"), x.Object), ":"), x.Extra) : (x.Timec == 2 && x.Action == 1 ? cat(cat(cat(cat(cat("relative:", itoa(wrapS64(x.Tick))), ":get:"), x.Object), ":"), x.Extra) : (x.Timec == 2 && x.Action == 2 ? cat(cat(cat(cat(cat("relative:", itoa(wrapS64(x.Tick))), ":show:"), x.Object), ":"), x.Extra) : (x.Timec == 3 && x.Action == 1 ? cat(cat(cat("onvalid:get:", x.Object), ":"), x.Extra) : (x.Timec == 3 && x.Action == 2 ? cat(cat(cat("onvalid:show:", x.Object), ":"), x.Extra) : (x.Timec == 4 && x.Action == 1 ? cat(cat(cat("onrecv:get:", x.Object), ":"), x.Extra) : (x.Timec == 4 && x.Action == 2 ? cat(cat(cat("onrecv:show:", x.Object), ":"), x.Extra) : (x.Timec == 5 && x.Action == 1 ? cat(cat(cat("onexit:get:", x.Object), ":"), x.Extra) : (x.Timec == 5 && x.Action == 2 ? cat(cat(cat("onexit:show:", x.Object), ":"), x.Extra) : (x.Timec == 1 && x.Action == 3 && x.Object == "get_all" ? cat("config:get_all:", x.Extra) : (x.Timec == 1 && x.Action == 3 && x.Object == "get_all_internal" ? cat("config:get_all_internal:", x.Extra) : (x.Timec == 1 && x.Action == 3 && x.Object == "show_all" ? cat("config:show_all:", x.Extra) : (x.Timec == 1 && x.Action == 3 && x.Object == "show_all_internal" ? cat("config:show_all_internal:", x.Extra) : (x.Timec == 1 && x.Action == 3 ? cat("config:", x.Object) : "")))))))))))))))))
+
+// no ':' inside
+//@ pred oneField(s string) := nfields(s, ":") == 1
+
+// The rules Add can create.
+//@ pred addable(x Rule) := !x.Suspended && oneField(x.Object) && oneField(x.Extra) &&
+//@        (((x.Timec == 0 || x.Timec == 2) && x.Action <= 2) ||
+//@         ((x.Timec == 3 || x.Timec == 4 || x.Timec == 5) && (x.Action == 1 || x.Action == 2) && x.Tick == 0) ||
+//@         (x.Timec == 1 && x.Action == 3 && x.Tick == 0 &&
+//@          ((x.Object == "get_all" || x.Object == "get_all_internal" || x.Object == "show_all" || x.Object == "show_all_internal") ||
+//@           (x.Extra == "" && (x.Object == "show_pc" || x.Object == "show_instruction" || x.Object == "show_disasm" || x.Object == "show_ticks" || x.Object == "get_ticks" || x.Object == "show_proc_regs_pre" || x.Object == "show_proc_regs_post" || x.Object == "show_proc_io_pre" || x.Object == "show_proc_io_post" || x.Object == "show_io_pre" || x.Object == "show_io_post")))))
+
+//@ func (rule Rule) String() string
+//@   ensures text: result == ruleText(rule)
+
 // Add appends exactly one, not suspended, rule - or nothing at all.
 //@ func (r *Simbox) Add(adds string) error
 //@   requires r != nil
@@ -23,6 +43,8 @@ package simbox
 //@             int(r.Rules[len(r.Rules) - 1].Timec) <= 5 && int(r.Rules[len(r.Rules) - 1].Action) <= 3
 //@   ensures kept: sameRulesPrefix(r, old(len(r.Rules)))
 //@   ensures rejected: result != nil ==> len(r.Rules) == old(len(r.Rules))
+//@   ensures image: result == nil ==> addable(r.Rules[len(r.Rules) - 1])
+//@   ensures inverse: forall x Rule :: addable(x) && adds == ruleText(x) ==> result == nil && r.Rules[len(r.Rules) - 1] == x
 //@   assigns r.Rules, spare(r.Rules)
 
 //@ func (r *Simbox) Suspend(idx int) error
